@@ -397,7 +397,8 @@ def _c15_runs(tier):
     cfg = C(thread_safe=1, instr="tsancb", opt="-O1")
     if tier == "thorough":
         return [_icb(cfg, "icb/h_c15.c", ["--bound=1", "--alloc-points=1"], "bound1-allocpoints"),
-                _icb(C(thread_safe=1, instr="tsancb", opt="-O1", sse2=0, **MIN), "icb/h_c15.c", ["--bound=2", "--alloc-points=0"], "bound2-static-points"), _tsan_free(tier)]
+                _icb(C(thread_safe=1, instr="tsancb", opt="-O1", sse2=0, **MIN), "icb/h_c15.c", ["--bound=2", "--alloc-points=0"], "bound2-static-points"),
+                _icb(cfg, "icb/h_c15.c", ["--bound=2", "--alloc-points=1"], "bound2-allocpoints (as far as the deadline allows)"), _tsan_free(tier)]
     return [_icb(cfg, "icb/h_c15.c", ["--bound=1", "--alloc-points=1"], "bound1-allocpoints"), _tsan_free(tier)]
 
 PROPS["C15"] = dict(
